@@ -2,6 +2,8 @@ package cencgen
 
 import (
 	"bytes"
+	"crypto/sha256"
+	"encoding/binary"
 	"fmt"
 
 	"github.com/Eyevinn/mp4ff/bits"
@@ -14,6 +16,71 @@ type LibOpt struct {
 	BoxTree     bool // encode the decrypted file with EncModeBoxTree (decrypt side only)
 	Separate    bool // init segment and media segments handled as separate files
 	Extract     bool // Separate only: protection data re-read from the encrypted init with ExtractInitProtectData
+	// RotateKeys > 0: key rotation. The key is a parameter of every EncryptFragment and
+	// DecryptSegment/DecryptFragment call; with rotation, fragment number g of the file
+	// (0-based, counted over all segments in file order) is encrypted and decrypted with
+	// RotKey(case key, g / RotateKeys), or RotKey(case key, KeyIdx[g]) where KeyIdx is set.
+	// On the decryption side ONE DecryptInfo serves the whole file: a segment whose fragments
+	// share one key is decrypted with DecryptSegment, any other segment fragment by fragment
+	// with DecryptFragment. The tool paths cannot rotate.
+	RotateKeys int
+	KeyIdx     []int
+	Rot        *RotStats // filled in by EncryptLib/DecryptLib when RotateKeys > 0
+}
+
+// RotStats reports what a rotating encryption/decryption did.
+type RotStats struct {
+	Fragments     int // fragments handled
+	Keys          int // distinct keys used
+	Switches      int // calls whose key differs from the key of the previous call (on the same InitProtectData / DecryptInfo)
+	SegmentCalls  int // DecryptSegment calls
+	FragmentCalls int // DecryptFragment calls
+	last          int
+	seen          map[int]bool
+}
+
+func (s *RotStats) use(idx int) {
+	if s == nil {
+		return
+	}
+	if s.seen == nil {
+		s.seen = map[int]bool{}
+		s.last = idx
+	}
+	if idx != s.last {
+		s.Switches++
+	}
+	s.last = idx
+	if !s.seen[idx] {
+		s.seen[idx] = true
+		s.Keys++
+	}
+}
+
+// RotKey derives key number k from the case key: key 0 is the case key
+// itself, key k > 0 the first 16 bytes of SHA-256(case key || "rot" || k).
+func RotKey(base []byte, k int) []byte {
+	if k == 0 {
+		return base
+	}
+	var n [4]byte
+	binary.BigEndian.PutUint32(n[:], uint32(k))
+	h := sha256.Sum256(append(append(append([]byte(nil), base...), "rot"...), n[:]...))
+	return h[:16]
+}
+
+// keyIndex is the number of the key of fragment g.
+func (o LibOpt) keyIndex(g int) int {
+	switch {
+	case o.RotateKeys <= 0:
+		return 0
+	case o.KeyIdx != nil:
+		if g < len(o.KeyIdx) {
+			return o.KeyIdx[g]
+		}
+		return 0
+	}
+	return g / o.RotateKeys
 }
 
 func (o LibOpt) String() string {
@@ -31,6 +98,9 @@ func (o LibOpt) String() string {
 		if o.Extract {
 			s += "+extract"
 		}
+	}
+	if o.RotateKeys > 0 {
+		s += "+rotate-keys"
 	}
 	return s
 }
@@ -108,12 +178,19 @@ func EncryptLib(c *Case, cfg Config, o LibOpt) (*EncOut, error) {
 		if err != nil {
 			return nil, stage("InitProtect", err)
 		}
+		g := 0
 		for _, s := range f.Segments {
 			for _, fr := range s.Fragments {
-				if err := mp4.EncryptFragment(fr, cfg.Key, cfg.IV, ipd); err != nil {
+				k := o.keyIndex(g)
+				o.Rot.use(k)
+				if err := mp4.EncryptFragment(fr, RotKey(cfg.Key, k), cfg.IV, ipd); err != nil {
 					return nil, stage("EncryptFragment", err)
 				}
+				g++
 			}
+		}
+		if o.Rot != nil {
+			o.Rot.Fragments = g
 		}
 		b, err := encodeFile(f)
 		if err != nil {
@@ -144,6 +221,7 @@ func EncryptLib(c *Case, cfg Config, o LibOpt) (*EncOut, error) {
 		}
 	}
 	out := &EncOut{Init: encInit}
+	g := 0
 	for _, seg := range c.Segs {
 		fm, err := decode(seg, o.SliceReader)
 		if err != nil {
@@ -151,10 +229,16 @@ func EncryptLib(c *Case, cfg Config, o LibOpt) (*EncOut, error) {
 		}
 		for _, s := range fm.Segments {
 			for _, fr := range s.Fragments {
-				if err := mp4.EncryptFragment(fr, cfg.Key, cfg.IV, ipd); err != nil {
+				k := o.keyIndex(g)
+				o.Rot.use(k)
+				if err := mp4.EncryptFragment(fr, RotKey(cfg.Key, k), cfg.IV, ipd); err != nil {
 					return nil, stage("EncryptFragment", err)
 				}
+				g++
 			}
+		}
+		if o.Rot != nil {
+			o.Rot.Fragments = g
 		}
 		b, err := encodeFile(fm)
 		if err != nil {
@@ -183,10 +267,8 @@ func DecryptLib(init, media []byte, key []byte, o LibOpt) (decInit, decMedia []b
 		if err != nil {
 			return nil, nil, stage("DecryptInit", err)
 		}
-		for _, s := range f.Segments {
-			if err := mp4.DecryptSegment(s, di, key); err != nil {
-				return nil, nil, stage("DecryptSegment", err)
-			}
+		if err := o.decryptSegments(f.Segments, di, key); err != nil {
+			return nil, nil, err
 		}
 		if o.BoxTree {
 			f.FragEncMode = mp4.EncModeBoxTree
@@ -213,10 +295,8 @@ func DecryptLib(init, media []byte, key []byte, o LibOpt) (decInit, decMedia []b
 	if err != nil {
 		return nil, nil, stage("decode-encrypted-media", err)
 	}
-	for _, s := range fm.Segments {
-		if err := mp4.DecryptSegment(s, di, key); err != nil {
-			return nil, nil, stage("DecryptSegment", err)
-		}
+	if err := o.decryptSegments(fm.Segments, di, key); err != nil {
+		return nil, nil, err
 	}
 	if o.BoxTree {
 		fm.FragEncMode = mp4.EncModeBoxTree
@@ -226,6 +306,49 @@ func DecryptLib(init, media []byte, key []byte, o LibOpt) (decInit, decMedia []b
 		return nil, nil, stage("encode-decrypted-media", err)
 	}
 	return decInit, decMedia, nil
+}
+
+// decryptSegments decrypts all segments of a file through ONE DecryptInfo.
+// Without rotation: DecryptSegment(segment, di, key) for every segment. With
+// rotation: see LibOpt.RotateKeys.
+func (o LibOpt) decryptSegments(segs []*mp4.MediaSegment, di mp4.DecryptInfo, key []byte) error {
+	g := 0
+	for _, s := range segs {
+		uniform := true
+		for i := range s.Fragments {
+			if o.keyIndex(g+i) != o.keyIndex(g) {
+				uniform = false
+			}
+		}
+		if uniform {
+			k := o.keyIndex(g)
+			if o.RotateKeys > 0 {
+				o.Rot.use(k)
+				if o.Rot != nil {
+					o.Rot.SegmentCalls++
+				}
+			}
+			if err := mp4.DecryptSegment(s, di, RotKey(key, k)); err != nil {
+				return stage("DecryptSegment", err)
+			}
+		} else {
+			for i, fr := range s.Fragments {
+				k := o.keyIndex(g + i)
+				o.Rot.use(k)
+				if o.Rot != nil {
+					o.Rot.FragmentCalls++
+				}
+				if err := mp4.DecryptFragment(fr, di, RotKey(key, k)); err != nil {
+					return stage("DecryptFragment", err)
+				}
+			}
+		}
+		g += len(s.Fragments)
+	}
+	if o.Rot != nil {
+		o.Rot.Fragments = g
+	}
+	return nil
 }
 
 // ReencodeToolLike is the baseline for the mp4ff-decrypt binary, which
